@@ -1200,8 +1200,11 @@ class ModelBuilder:
                     return None
             return current  # type: ignore[return-value]
         else:
-            # Search from project root
-            for task in project.tasks:
+            # Search from project root. A top-level task takes precedence: a nested task that
+            # happens to carry the same local id must not capture an absolute reference. Nested
+            # tasks are still found by their local id when no top-level task matches.
+            candidates = [t for t in project.tasks if t.parent is None] + [t for t in project.tasks if t.parent is not None]
+            for task in candidates:
                 if task.id == parts[0]:
                     if len(parts) == 1:
                         return task  # type: ignore[return-value]
